@@ -121,6 +121,34 @@ func reloadState(vs *types.ValidatorSet, asLast bool) (*types.ValidatorSet, erro
 	return ld.Validators, nil
 }
 
+// reloadIntermediate: the other way a node gets a validator set back from disk. ExecBlock saved
+// the state of height h under the intermediate key (SaveIntermediate), the process died before
+// State.Save; on restart the state of h-1 is loaded and LoadIntermediate brings it to h
+// (Angine.RecoverFromCrash). vs is the set in force after h.
+func reloadIntermediate(vs *types.ValidatorSet) (out *types.ValidatorSet, err error) {
+	defer func() {
+		if r := recover(); r != nil {
+			err = fmt.Errorf("LoadIntermediate panicked: %v", r)
+		}
+	}()
+	db := dbm.NewMemDB()
+	prev := mkSet([]int64{2, 1})
+	st1 := sm.MakeGenesisState(db, &types.GenesisDoc{ChainID: "c16", Validators: []types.GenesisValidator{{PubKey: pub(0), Amount: 1}}})
+	st1.LastBlockHeight = 5
+	st1.Validators, st1.LastValidators = prev, mkSet([]int64{1})
+	st1.Save()
+	st2 := st1.Copy()
+	st2.LastBlockHeight = 6
+	st2.Validators, st2.LastValidators = vs, prev
+	st2.SaveIntermediate()
+	ld := sm.LoadState(db)
+	if ld == nil {
+		return nil, fmt.Errorf("LoadState returned nil")
+	}
+	ld.LoadIntermediate()
+	return ld.Validators, nil
+}
+
 func reloadJSON(vs *types.ValidatorSet) (*types.ValidatorSet, error) {
 	bz := wire.JSONBytes(vs)
 	var err error
@@ -197,12 +225,14 @@ func checkSet(powers []int64, j0max, kmax int64, label string) {
 					map[string]interface{}{"powers": powers, "start_increments": j, "k": k, "batched": sb, "repeated": sr})
 			}
 		}
-		for _, mode := range []string{"state", "state-last", "copy", "bare-binary", "bare-json"} {
+		for _, mode := range []string{"state", "state-last", "state-intermediate", "copy", "bare-binary", "bare-json"} {
 			var re *types.ValidatorSet
 			var err error
 			switch mode {
 			case "state":
 				re, err = reloadState(live, false)
+			case "state-intermediate":
+				re, err = reloadIntermediate(live)
 			case "state-last":
 				re, err = reloadState(live, true)
 			case "bare-binary":
@@ -479,6 +509,10 @@ func checkOps(caseNo int64) {
 		applyOp(C, mC, o)
 		if restartAt[i] && len(D.Validators) > 0 {
 			re, err := reloadState(D, false)
+			if i%2 == 1 {
+				re, err = reloadIntermediate(D) // a restart after a crash between the application's commit and State.Save
+				run.Count("ops_restarts_through_intermediate_state", 1)
+			}
 			if err != nil {
 				run.Violation("reload-error-state", fmt.Sprintf("round trip failed before op %d: %v", i, err), ctx())
 				return
@@ -568,7 +602,7 @@ func enumPowers(n int, maxP int64, f func([]int64)) {
 func main() {
 	run = lib.NewRun("C16", "exploration")
 	run.SetRule("power vectors: exhaustive for n<=3 (quick) / n<=4 (thorough) with powers<=6, plus seeded random vectors (n<=10, powers to 1e9); for each, every start state after 0..j single increments, every batch size k<=2T (capped), State.Save/LoadState (as Validators and as LastValidators) and Copy() round trips followed for 2T increments (bare go-wire round trips of the set alone are observed as a metric), all T-windows; plus seeded random Add/Update/Remove/Copy sequences on three replicas. Non-trivial: >=2 validators (distinct power vector) or a distinct operation sequence.")
-	run.Assume("proposer agreement is judged on Proposer().Address and all Accum values", "persistence = State.Save -> state DB -> LoadState, the only way a node reloads a validator set", "proportionality (b) is judged on sets built by NewValidatorSet (accums start at 0); windows after a membership change are observed separately")
+	run.Assume("proposer agreement is judged on Proposer().Address and all Accum values", "persistence = State.Save -> state DB -> LoadState, and SaveIntermediate -> LoadState(h-1) + LoadIntermediate (recovery after a crash between the application's commit and State.Save): the two ways a node reloads a validator set", "proportionality (b) is judged on sets built by NewValidatorSet (accums start at 0); windows after a membership change are observed separately")
 	maxN := lib.Pick(3, 4)
 	for n := 1; n <= maxN; n++ {
 		enumPowers(n, 6, func(p []int64) {
